@@ -13,6 +13,14 @@ T_Render == /\ Ev.ev = "Render" /\ Render(Ev.route, Ev.tree, Ev.geoms, Ev.out)
             /\ Chk("C20 WKT geometry = concatenation in edge order (error when a geometry is missing)", RouteWktOK')
             /\ Chk("C20 WKB geometry = concatenation in edge order (error when a geometry is missing)", RouteWkbOK')
             /\ Chk("C20 tree outputs: one entry per branch", TreeIdsOK' /\ TreeJsonOK' /\ TreeGeoOK(rout.tree_geo_json)' /\ TreeGeoOK(rout.tree_wkt)' /\ TreeGeoOK(rout.tree_wkb)')
+            /\ LET q == [route |-> Ev.route, tree |-> Ev.tree, geoms |-> Ev.geoms] IN
+                /\ Chk("C20 output plugin: answers iff route and tree can be rendered, with the route as the format renders it",
+                       /\ PluginBothOK(q, "edge_id", Ev.plug.edge_id) /\ PluginBothOK(q, "json", Ev.plug.json)
+                       /\ PluginBothOK(q, "geo_json", Ev.plug.geo_json) /\ PluginBothOK(q, "wkt", Ev.plug.wkt) /\ PluginBothOK(q, "wkb", Ev.plug.wkb))
+                /\ Chk("C20 output plugin, route only: fails iff the route cannot be rendered",
+                       /\ PluginRouteOK(q, "edge_id", Ev.plug.edge_id_route_only) /\ PluginRouteOK(q, "json", Ev.plug.json_route_only)
+                       /\ PluginRouteOK(q, "geo_json", Ev.plug.geo_json_route_only) /\ PluginRouteOK(q, "wkt", Ev.plug.wkt_route_only)
+                       /\ PluginRouteOK(q, "wkb", Ev.plug.wkb_route_only))
 T_Ids == /\ Ev.ev = "Ids" /\ UNCHANGED <<rq, rout>>
          /\ Chk("C20 origin / destination identifiers are those stored for the matched vertices",
                 Ev.ok /\ Ev.o_uuid = Ev.table[Ev.o + 1] /\ Ev.d_uuid = Ev.table[Ev.d + 1])
